@@ -113,7 +113,19 @@ def rec_eq(g1, g2) -> dict:
             eqs += [bool(c == d), bool(d == c), not bool(c != d), d in [c], d in {c}]
         except Exception:  # noqa: BLE001
             eqs.append(g1 != g2)          # an exception is never the right answer: recorded as the wrong one
-    return {"id": stable_id("oe", g1, g2), "canary": "", "kind": "eq", "g1": g1, "g2": g2, "eq": bool(a == b) if route_eq else (g1 != g2),
+    # "comparison with a string parses the string first", whatever the object did before: the spelling of g1 that leaves out its zero-valued
+    # optional groups (what str()/to_reduced_str() print) denotes g3, which equals g1 only when nothing was left out
+    g3 = [NONE if (i in (0, 1, 4, 5) and x == 0) else x for i, x in enumerate(g1)]
+    text3, eqs3 = reduced(g3), []
+    for prep in (lambda c: None, lambda c: str(c), lambda c: repr(c), lambda c: c.to_reduced_str(), lambda c: hash(c), lambda c: (c == text3, str(c)),
+                 lambda c: f"{c}"):
+        c = Obis(_tup(g1))
+        try:
+            prep(c)
+            eqs3 += [bool(c == text3), not bool(c != text3)]
+        except Exception:  # noqa: BLE001
+            eqs3.append(g1 != g3)
+    return {"id": stable_id("oe", g1, g2), "canary": "", "kind": "eq", "g3": g3, "text3": list(text3.encode()), "eqs3": eqs3, "g1": g1, "g2": g2, "eq": bool(a == b) if route_eq else (g1 != g2),
             "hash_eq": (hash(a) == hash(b)) and route_hash,
             "eq_str": eq_str, "str_ok": str_ok, "cde": list(cde.encode()), "eqs": eqs, "fcde": fcde}
 
@@ -259,7 +271,7 @@ def run_c20(chk: Check) -> int:
             what = {"parse": lambda: f"to_obis_tupple({bytes(r['text']).decode()!r}) -> {r['got']} raised {r['raised']!r}, expected {r['groups']}",
                     "malformed": lambda: f"Obis.from_string({bytes(r['text']).decode('latin1')!r}) raised {r['raised']!r} (no digit.digit: must be ValueError)",
                     "roundtrip": lambda: f"Obis({r['groups']}).to_reduced_str() = {bytes(r['text']).decode()!r} parses back to {r['got']} raised {r['raised']!r}",
-                    "eq": lambda: f"Obis({r['g1']}) vs Obis({r['g2']}): == {r['eq']}, hash equal {r['hash_eq']}, == str {r['eq_str']}, cde {bytes(r['cde']).decode()!r}"}[r["kind"]]()
+                    "eq": lambda: f"Obis({r['g1']}) vs Obis({r['g2']}): == {r['eq']}, hash equal {r['hash_eq']}, == str {r['eq_str']}, cde {bytes(r['cde']).decode()!r}; Obis(g1) == {bytes(r['text3']).decode()!r} fresh/after printing/hashing: {r['eqs3']}"}[r["kind"]]()
             chk.violation(f"obis-{v['clause']}", f"TLC rejects: {what} (clause {v['clause']})", {"kind": "obis-op", "record": r, "verdict": v})
     chk.sample([{k: (bytes(v).decode("latin1") if k == "text" else v) for k, v in r.items() if k in ("kind", "form", "groups", "text", "got", "raised")}
                 for r in (recs[0], next(x for x in recs if x["kind"] == "roundtrip"), next(x for x in recs if x["kind"] == "malformed"))])
